@@ -22,7 +22,9 @@ func main() {
 	thorough := flag.Bool("thorough", false, "")
 	nopoison := flag.Bool("nopoison", false, "released buffers go straight back to the pool (no poison, no quarantine)")
 	bypass := flag.Bool("bypass", false, "buffer pool instrumentation off altogether (no registry lock: requests run in parallel as in production)")
+	rds := flag.String("redis", "", "only | both: instances with a cache get a (fake) redis server as second-level cache, alone or behind the memory cache")
 	flag.Parse()
+	useRedis = *rds
 	pool.VerifPassThrough.Store(*nopoison)
 	pool.VerifBypass.Store(*bypass)
 	workdir = *dir
@@ -68,6 +70,8 @@ func main() {
 		modeC18()
 	case "c04":
 		modeC04(*thorough)
+	case "c20redis":
+		modeC20Redis()
 	case "c15live":
 		modeC15Live()
 	case "c09":
